@@ -75,7 +75,36 @@ impl<'a> G<'a> {
         if d == 0 {
             return if !ints.is_empty() && self.r.chance(1, 2) { self.r.pick(&ints).clone() } else { self.lit() };
         }
-        match self.r.below(41) {
+        match self.r.below(44) {
+            41..=43 => {
+                // strings with holes — a sole hole, hole + text, several holes — as tuple fields in
+                // non-first position, in branch bodies, as call arguments, with a value flowing
+                self.feat("string-holes");
+                let (a, b2) = (self.int(d - 1), self.int(d - 1));
+                let words = ["a", "xy", "quiver"];
+                let (w1, w2) = (*self.r.pick(&words), *self.r.pick(&words));
+                let s = match self.r.below(6) {
+                    0 => "\"{sx}\"".to_string(),
+                    1 => "\"{~}\"".to_string(),
+                    2 => format!("\"{w1}{{sx}}\""),
+                    3 => format!("\"{{sx}}{w2}{{sy}}\""),
+                    4 => "\"{sx}{sy}\"".to_string(),
+                    _ => format!("\"{{sy}}{w1}\""),
+                };
+                let len = "{ =Str[sb] => sb __binary_length__ }";
+                match self.r.below(6) {
+                    // non-first tuple field, the flowing value used after it
+                    0 => format!("{{ sx = \"{w1}\", sy = \"{w2}\", \"q\" [{a}, {s}, ~] {{ =[sn, Str[sb], Str[sq]] => [sn, [sb __binary_length__, sq __binary_length__] __integer_add__] __integer_add__ }} | 0 }}"),
+                    1 => format!("{{ sx = \"{w1}\", sy = \"{w2}\", \"q\" [{s}, {a}, {s}] {{ =[Str[s1], sn, Str[s2]] => [sn, [s1 __binary_length__, s2 __binary_length__] __integer_add__] __integer_add__ }} | 0 }}"),
+                    // branch body
+                    2 => format!("{{ sx = \"{w1}\", sy = \"{w2}\", \"r\" {{ | {a} =0 => {s} | {s} }} {len} | 0 }}"),
+                    // call argument (written as a tuple) and argument of a closure
+                    3 => format!("{{ sx = \"{w1}\", sy = \"{w2}\", sf = #[Str['bin], Str['bin]] {{ =[Str[p], Str[q]] => [p __binary_length__, q __binary_length__] __integer_add__ }}, \"t\" [sy, {s}] sf | 0 }}"),
+                    4 => format!("{{ sx = \"{w1}\", sy = \"{w2}\", \"u\" [{b2}, [{a}, {s}] .1 {len}, ~ {len}] {{ =[p, q, r] => [p, [q, r] __integer_add__] __integer_add__ }} | 0 }}"),
+                    // as a chain term on its own, then more steps of the sequence
+                    _ => format!("{{ sx = \"{w1}\", sy = \"{w2}\", \"v\" {s} =sz, sw = {a}, [sw, sz {len}] __integer_add__ | 0 }}"),
+                }
+            }
             39 | 40 => {
                 // a repeated identifier whose two occurrences sit in the same nested tuple (common
                 // path prefix): the equality check usually FAILS at run time
@@ -856,9 +885,10 @@ pub fn program(r: &mut Rng, ev: &mut Ev) -> String {
                 steps.push(format!("pr1 = A[x: Cel[{k}]] ppg"));
             }
             _ => {
+                // (type aliases come before the first expression statement)
                 steps.push("'pu2 = Baz[Qux['bin], 'int] | Quux['bin]".into());
-                steps.push("pun = #'pu2 { 2 }".into());
                 steps.push("'phy = (y: Cel['int])".into());
+                steps.push("pun = #'pu2 { 2 }".into());
                 steps.push("pph = #(P[x: 'int, y: Cel['int]] | P[x: 'int, y: 'bin]) { | ='phy => $.x | 0 }".into());
                 steps.push(format!("pr1 = [P[x: {k}, y: Cel[3]] pph, P[x: 1, y: 0x00] pph] .0"));
             }
